@@ -36,6 +36,7 @@ import (
 	"github.com/awslabs/ar-go-tools/analysis/lang"
 	"github.com/awslabs/ar-go-tools/internal/formatutil"
 	"github.com/awslabs/ar-go-tools/internal/graphutil"
+	"github.com/awslabs/ar-go-tools/internal/verifhook"
 	"golang.org/x/tools/go/callgraph"
 	"golang.org/x/tools/go/ssa"
 )
@@ -1280,6 +1281,7 @@ func (ea *functionAnalysisState) RunForwardIterative() error {
 		return nil
 	}
 	for len(ea.worklist) > 0 {
+		verifhook.At("escape.RunForwardIterative.step")
 		block := ea.worklist[0]
 		ea.worklist = ea.worklist[1:]
 		g := ea.blockEnd[block]
@@ -1496,6 +1498,7 @@ func EscapeAnalysis(state *dataflow.AnalyzerState, root *callgraph.Node) (*Progr
 	// The main worklist algorithm. Reanalyze each function, putting any function(s) that need to be reanalyzed back on
 	// the list
 	for len(worklist) > 0 {
+		verifhook.At("escape.EscapeAnalysis.step")
 		summary := worklist[len(worklist)-1]
 		worklist = worklist[:len(worklist)-1]
 
